@@ -413,7 +413,10 @@ class _Shape:
         if self.region_type in ['polygon', 'line']:
             # have to special-case polygon in the phys coord case
             # b/c can't typecheck when iterating as in sky coord case
-            coords = [PixCoord(self.coord[0::2], self.coord[1::2])]
+            # the values may be quantities (e.g., written with a unit)
+            xvals = [getattr(val, 'value', val) for val in self.coord[0::2]]
+            yvals = [getattr(val, 'value', val) for val in self.coord[1::2]]
+            coords = [PixCoord(xvals, yvals)]
         else:
             temp = [_.value for _ in self.coord]
             coord = PixCoord(temp[0], temp[1])
